@@ -72,6 +72,9 @@ def oracle(run: sched.Run, reqs, step_cleanups) -> None:
             want = last[2][0]
         elif name == 'P7':
             want = 2
+        elif name == 'P10':
+            want = 5
+            expect_succ = False
         else:
             raise Violation('unexpected_finish', prog=name, **facts)
         if p.result() != want:
@@ -236,10 +239,10 @@ def shards(tier):
 
 BOUNDS = {
     'quick': dict(requests='K = 2 between loop callbacks; K = 1 issued from inside a listener notification (running/waiting/paused/played, occurrence 0..2)',
-                  actions=[sched.ACT_NAMES[a] for a in ACTS], positions=f'gaps 0..{NPOS} + after termination', programs='P0..P8',
+                  actions=[sched.ACT_NAMES[a] for a in ACTS], positions=f'gaps 0..{NPOS} + after termination', programs='P0..P10',
                   data='resume values int, kill/pause texts str len <= 2'),
     'thorough': dict(requests='K = 2 with each request in a gap or in a listener notification; K = 3 in gaps',
-                     actions=[sched.ACT_NAMES[a] for a in ACTS], positions=f'gaps 0..{NPOS}', programs='P0..P8', data='int, str len <= 2 (<= 1 for K = 3)'),
+                     actions=[sched.ACT_NAMES[a] for a in ACTS], positions=f'gaps 0..{NPOS}', programs='P0..P10', data='int, str len <= 2 (<= 1 for K = 3)'),
 }
 OUTSIDE = ['future().cancel() as a request (C04)', 'hooks that raise (C03)', 'more than K requests', 'communicator-borne requests (C16)']
 RULE = ('paths over (program, K requests with position/listener placement, action, value, text); non-trivial when at least one request was '
